@@ -186,6 +186,26 @@ func (c *lim) BadCapEquals(ctx context.Context, ch chan<- struct{}) {
 	c.extend()
 }
 
+func (c *lim) BadCapFallsThrough(ctx context.Context, ch chan<- struct{}) {
+	c.mu.Lock()
+	defer c.mu.Unlock()
+	if c.most != nil && c.n >= *c.most {
+		c.fire(ctx, ch)
+	}
+	c.extend()
+}
+
+func (c *lim) GoodCapSwitch(ctx context.Context, ch chan<- struct{}) {
+	c.mu.Lock()
+	defer c.mu.Unlock()
+	switch {
+	case c.most != nil && c.n >= *c.most:
+		c.fire(ctx, ch)
+	default:
+		c.extend()
+	}
+}
+
 func (c *lim) reached() bool {
 	most := c.most
 	return most != nil && *most < c.n
